@@ -56,11 +56,9 @@ namespace Givaro
     inline typename MOD::Element& MOD::sub
     (Element& r, const Element& a, const Element& b) const
     {
-        if (a < b) {
-            RecInt::sub(r, _p, b);
-            RecInt::add(r, a);
-        }
-        else RecInt::sub(r, a, b);
+        const bool lt = (a < b); // r may be the same object as a or b
+        RecInt::sub(r, a, b);
+        if (lt) RecInt::add(r, _p);
         return r;
     }
 
